@@ -1,11 +1,13 @@
 import SnaxVerif.Lemmas.AccfgMove
+import SnaxVerif.Lemmas.AccfgLoopOverlap
 /-!
 # C06 — setup/compute overlap keeps every launch's configuration
 
-The two patterns of `accfg_config_overlap.py` are not modelled as syntactic functions yet; the check validates
-every real rewrite step semantically (abstract CSR machine before/after, SSA availability) and compares
-`infer_state_of` with the model's facts on every intermediate IR. What is proved here is the semantic core of the
-block-level pattern, and the model-level witness of the known finding D26 for the loop-level pattern.
+Both patterns of `accfg_config_overlap.py` are modelled as functions at a position (`applyBlockMove`, `applyLoopOverlap`)
+and every real rewrite step is replayed through them. `block_move_preserves` certifies every block-level step (whole
+machine state); `loop_overlap_preserves` certifies a loop-level step (trace) under decidable side conditions that the check
+evaluates on every real step — steps outside them (the open finding D26 is the prominent class) are validated semantically
+only and counted in the evidence. The model-level witness of D26 is kept beside the theorem.
 -/
 namespace SnaxVerif.C06
 open SnaxVerif.Accfg
@@ -53,6 +55,42 @@ theorem block_move_preserves (path : List Nat) (flags : List Bool) (b b' : Block
 /-- non-vacuity: the code between a launch and the next setup in the lowering's form -/
 example : touchesB 0 (.cons (.await 0) (.cons (.pure 9 .add [1, 2]) (.cons (.launch 1 []) .nil))) = false ∧
     launchesB 0 (.cons (.await 0) (.cons (.pure 9 .add [1, 2]) (.cons (.launch 1 []) .nil))) = false := by decide
+
+/-- **Loop-level overlap (rotation of the first setup of a loop body).** `b'` is what the pattern makes of `b` at `path`:
+the side-effect-free chain computing the setup's operands is cloned in front of the loop with the induction variable
+replaced by the lower bound, followed by a copy of the setup; a second clone with `iv + step` and a second copy go to the end
+of the body; the original setup is erased. `b2` / `bg` are the same rewrite keeping the original setup / with the two copies
+as ghosts. Hypotheses (all decidable, evaluated on every real step; `applyLoopOverlapGen` includes `loopSide`):
+the statements in front of the setup are pure operations in SSA order, the cloned chain is closed, step and induction
+variable are not redefined in the body, fresh ids are fresh; `bg` is well formed and **every launch of `bg` stays total**
+when the two copies count as writes of unknown values — i.e. every launch after the loop (zero trips included) and in the
+body re-writes the rotated fields first. Then, from every machine state, for every lower bound, step and trip count,
+configuration and clobber behaviour, the trace — every launch with the registers it observes, every await, in order — is
+unchanged. The loop-dependent values are recomputed for the iteration they are used in (`clone_correct`), and at every
+iteration head the registers already hold what the erased setup would write (`rot_loop`). -/
+theorem loop_overlap_preserves (cfg : Cfg) (path : List Nat) (j fresh : Nat) (b b' b2 bg : Block)
+    (h' : applyLoopOverlapGen false false path j fresh b = some b')
+    (h2 : applyLoopOverlapGen true false path j fresh b = some b2)
+    (hg : applyLoopOverlapGen true true path j fresh b = some bg)
+    (hng : noGhostB b2 = true) (hwfg : wfB bg = true) (hok : okBb cfg.fields bg noFacts = true)
+    (hreads : ∀ x ∈ readsB b, x < fresh) (st : St) :
+    (execB cfg false b' st).tr = (execB cfg false b st).tr :=
+  loop_overlap_trace cfg path j fresh b b' b2 bg h' h2 hg hng hwfg hok hreads st
+
+/-- a loop in the lowering's form: `%13 = cast %iv; setup(P = %13, Q = %1); launch; await`, re-configured after the loop -/
+def rotExample : Block :=
+  .cons (.pure 11 (.const 1) []) <|
+  .cons (.forS 5 6 7 12 (
+      .cons (.pure 13 .cast [12]) <| .cons (.setup 0 [(0, 13), (1, 1)]) <| .cons (.launch 0 [11]) <| .cons (.await 0) .nil)) <|
+  .cons (.setup 0 [(0, 0), (1, 1)]) <| .cons (.launch 0 [11]) <| .cons (.await 0) .nil
+
+/-- non-vacuity: the rule applies to `rotExample` and every hypothesis of `loop_overlap_preserves` holds -/
+example : (do
+    let _ ← applyLoopOverlapGen false false [1] 1 14 rotExample
+    let b2 ← applyLoopOverlapGen true false [1] 1 14 rotExample
+    let bg ← applyLoopOverlapGen true true [1] 1 14 rotExample
+    pure (noGhostB b2 && wfB bg && okBb (fun _ => [0, 1]) bg noFacts && (readsB rotExample).all (· < 14))) = some true := by
+  decide
 
 /-! ## Known finding D26 (loop-level overlap with several setups in the body)
 
